@@ -301,6 +301,12 @@ class Translator:
             r.bases.append(bt.get('desugaredQualType') or bt.get('qualType'))
         for c in n.get('inner', []) or []:
             ck = c.get('kind')
+            if ck in ('TypeAliasDecl', 'TypedefDecl'):
+                # (C06, additive) member typedefs of a concrete record: used to resolve 'X<..>::Name' parameter types
+                if not hasattr(r, 'member_types'):
+                    r.member_types = {}
+                r.member_types.setdefault(c.get('name'), c.get('type', {}))
+                continue
             if ck == 'FieldDecl' and not have_fields and self.phase == 1:
                 r.fields.append([c.get('name', ''), c['id'], c.get('type', {}), c])
                 self.field_owner[c['id']] = (r, len(r.fields) - 1)
@@ -330,6 +336,8 @@ class Translator:
         kind = {'FunctionDecl': 'fn', 'CXXMethodDecl': 'method', 'CXXConstructorDecl': 'ctor', 'CXXConversionDecl': 'conv'}[k]
         if kind in ('method', 'conv') and n.get('storageClass') == 'static':
             kind = 'fn'
+        if kind == 'method' and self.decl_nodes.get(n.get('previousDecl'), {}).get('storageClass') == 'static':
+            kind = 'fn'     # (C06, additive) out-of-line definition / explicit specialisation of a static member
         f = Function(n, rec, kind)
         f.implicit = False
         f.scope = scope
@@ -361,6 +369,12 @@ class Translator:
         last = c.split('::')[-1]
         if '<' not in c and last in self.typedefs and depth < 6:
             return self.typeinfo({'qualType': self.typedefs[last]}, depth + 1)
+        # (C06, additive) member typedef of a known record: 'X<..>::Name' (possibly nested: 'X<..>::Vector::Scalar')
+        mm = re.match(r'^(.*>(?:::\w+)*)::(\w+)$', c)
+        if mm and depth < 6:
+            pre = self.typeinfo({'qualType': mm.group(1)}, depth + 1)
+            if pre[0] == 'rec' and mm.group(2) in getattr(pre[1], 'member_types', {}):
+                return self.typeinfo(pre[1].member_types[mm.group(2)], depth + 1)
         # try the sugared name (typedef to a known record)
         c2 = clean_type(t.get('qualType') or '')
         if c2 != c:
@@ -705,6 +719,18 @@ class Translator:
         if not self.rec_fields(r):
             return 'tt'
         return '(mk_%s I %s)' % (r.coq, ' '.join('(%s)' % v for v in vals))
+
+    def default_record(self, r, depth=0):
+        vals = []
+        for (i, fld) in self.rec_fields(r):
+            ti = self.typeinfo(fld[2])
+            if ti[0] == 'scalar':
+                vals.append('false' if ti[1] == 'TBool' else 'ilit I %s 0' % ti[1])
+            elif ti[0] == 'rec' and depth < 8:
+                vals.append(self.default_record(ti[1], depth + 1))
+            else:
+                raise Unsupported('default construction of field %s' % fld[0])
+        return self.mk_record(r, vals)
 
     def proj(self, r, idx, base):
         return '(%s_%s %s)' % (r.coq, r.fields[idx][0], base)
@@ -1154,7 +1180,10 @@ class Translator:
                 at = self.typeinfo(args[0].get('type', {}))
                 if at[0] == 'rec' and at[1] is r and re.match(r'void \((const )?.*&&?\)( noexcept)?$', ctype):
                     pm = re.match(r'void \((.*)\)', ctype).group(1)
-                    if norm_type_key(pm) == r.key or clean_type(pm).split('::')[-1].split('<')[0] == r.cname:
+                    # (C05, additive) template arguments may themselves contain '::' (range_t<rkcommon::math::vec2f> &&):
+                    # also compare the class name in front of the first '<'
+                    if (norm_type_key(pm) == r.key or clean_type(pm).split('::')[-1].split('<')[0] == r.cname
+                            or clean_type(pm).split('<')[0].split('::')[-1].strip() == r.cname):
                         return self.trans_expr(args[0], ctx)
             cands = [g for g in r.ctors if not getattr(g, 'implicit', False) and g.node.get('type', {}).get('qualType') == ctype]
             if not cands:
@@ -1162,6 +1191,10 @@ class Translator:
                 cands = [g for g in r.ctors if not getattr(g, 'implicit', False) and
                          len([c for c in g.node.get('inner', []) if c.get('kind') == 'ParmVarDecl']) == len(args) and
                          norm_sig(g.node.get('type', {}).get('qualType', '')) == norm_sig(ctype)]
+            if not cands and not args and any(getattr(g, 'implicit', False) and not [c for c in g.node.get('inner', []) or [] if c.get('kind') == 'ParmVarDecl'] for g in r.ctors):
+                # (C06, additive) implicit / defaulted default constructor: fields are indeterminate in C++; the
+                # subset only accepts code that assigns them before reading, so they are modelled as 0 placeholders
+                return self.default_record(r), ty
             if len(cands) != 1:
                 raise Unsupported('cannot resolve constructor %s of %s (%d candidates)' % (ctype, r.key, len(cands)))
             g = cands[0]
